@@ -65,6 +65,11 @@ def catalogue():
     c["dict-typed-cd"] = ({"k": "Dict", "key": {"k": "Str", "o": {"transform_strip": True}}, "val": {"k": "Int", "o": {"min": 0, "max": 9}},
                            "o": {"default": D(("d", 1)), "default_callable": True}}, [D(("k", 1)), D((" K ", "2"))], [D(("k", "x")), [1]])
     c["int-cd"] = ({"k": "Int", "o": {"default": 3, "default_callable": True}}, [1, "2"], ["x"])
+    c["int-cd-partial"] = ({"k": "Int", "o": {"default": 3, "default_callable": "partial"}}, [1, "2"], ["x"])
+    c["list-int-cd-object"] = ({"k": "List", "item": {"k": "Int", "o": {"min": 0, "max": 9}}, "o": {"default": [1, 2], "default_callable": "object"}},
+                               [[2], [1, "2"]], [[1, "x"], 5])
+    c["dict-typed-cd-partial"] = ({"k": "Dict", "key": {"k": "Str", "o": {"transform_strip": True}}, "val": {"k": "Int", "o": {"min": 0, "max": 9}},
+                                  "o": {"default": D(("d", 1)), "default_callable": "partial"}}, [D(("k", 1))], [D(("k", "x"))])
     c["challenge-dflt"] = ({"k": "Challenge", "o": {"hash_algorithm": "sha1", "default": "dfl-secret"}}, ["pw", "pw2"], [5])
     c["secure-aes"] = ({"k": "Secure", "o": {"method": "aes"}}, ["s3cret-ZQ", "p\u00e4ss w\u00f6rd", "0123456789abcdef", "block-aligned-secret-of-32-bytes"], [])
     c["secure-xor"] = ({"k": "Secure", "o": {"method": "xor", "default": "dflt-secret"}}, ["s3cret-ZQ", "", "0123456789abcdefghijABCDEFGHIJ!@#$%^&*()-longer-than-the-key"], [])
@@ -340,7 +345,17 @@ class Built:
                 return V.dec(dv)
             import cincoconfig as cc  # noqa
             fld = R.mk_field(ff)
-            fld._default = factory
+            how = o["default_callable"]
+            if how == "partial":          # callables that are neither functions nor classes
+                import functools
+                fld._default = functools.partial(factory)
+            elif how == "object":
+                class Factory:
+                    def __call__(self_inner):
+                        return factory()
+                fld._default = Factory()
+            else:
+                fld._default = factory
             return fld
         return R.mk_field(f)
 
@@ -754,7 +769,14 @@ def ops_for(spec, leafname, tier="quick"):
             for cls, v in vals:
                 dv = V.dec(v)
                 if isinstance(dv, str) and kind != "Bool":
-                    ops.append(["cmdline", [opt, dv]])
+                    ops.append(["cmdline", [opt, dv], path, dv])
+                elif kind != "Bool" and isinstance(dv, (int, float)) and not isinstance(dv, bool) and dv == dv and abs(dv) < 1e15:
+                    ops.append(["cmdline", [opt, repr(dv)], path, repr(dv)])        # numbers as typed on a command line, 0 included
+            if kind != "Bool" and kind in ("Int", "Float"):
+                ops.append(["cmdline", [opt, "0"], path, "0"])
+            if kind == "Bool":
+                ops.append(["cmdline", [opt], path, True])
+                ops.append(["cmdline", ["--no-" + opt[2:]], path, False])
         if kind == "List" and f.get("item") is not None or kind == "List":
             good, bad_ = valid[0], (invalid[0] if invalid else None)
             gi = V.dec(good)[0] if V.dec(good) else 1
